@@ -114,7 +114,7 @@ def spec_strategy(draw, tier):
         ep = strategies.endpoints(idx=i)
         if k == "tls":
             c = draw(strategies.tls_conn(max_records=5, max_len=400, ep=ep, bytes_mode_limit=0,
-                                         delivery=strategies.tcp_delivery(modes=("rec", "cuts", "cuts", "flight"), wrap=False, dups=True)))
+                                         delivery=strategies.tcp_delivery(modes=("rec", "rec", "cuts", "cuts", "flight"), wrap=False, dups=True, moves=True)))
             c["cert_len"] = min(c.get("cert_len", 300), 300)
             c["tcp"]["mss"] = max(c["tcp"]["mss"], 536)
             c["tcp"]["acks"] = False
@@ -130,7 +130,7 @@ def stages(tier):
     return [Stage("all-cuts", evaluate, strategy=lambda t: spec_strategy(t), examples=240 if quick else 4000, shrink=False)]
 
 
-RULE = ("captures of 1-3 TLS/QUIC connections (cuts inside handshakes, inside records spanning packets, between coalesced flights and after key "
+RULE = ("captures of 1-3 TLS/QUIC connections with retransmitted and (causally) displaced TCP segments (cuts inside handshakes, inside records spanning packets, between coalesced flights and after key "
         "changes arise because EVERY cut position k = 0..N of each capture is run); metamorphic chain: E(k) (per connection: per-direction byte "
         "stream for TLS, datagram list for QUIC) is a prefix of E(k+1), E(k) is a prefix of the ground truth, E(N) equals it.  Non-trivial: the "
         "chain has >= 3 distinct values and a cut falls strictly inside a TLS record that spans packets (or the capture has a QUIC connection); "
